@@ -46,7 +46,11 @@ class C15(Prop):
                   "prefix_string::{encode,decode}; unbounded: integer round trip for every prefix size, RFC 7541 5.1 value "
                   "or rejection and never a wrapped value, table agreement with the canonical code of the RFC lengths "
                   "(kernel decide), Huffman round trip, acceptance = RFC 7541 5.2 except on the flagged lax check_eof "
-                  "branch (D-15, recorded; *_partial), string literal round trip")
+                  "branch (D-15, recorded; *_partial), string literal round trip for every string whose Huffman coding is "
+                  "shorter than 2^29 - 2 bytes and a decoding error (BufSize) beyond (the bound prefix_string::decode puts on a "
+                  "Huffman literal since the repair of D-06u; which body the tree has is read from the source on every run), "
+                  "the Huffman decoder with every u32 / shift / index operation checked never overflows under that bound and "
+                  "never on any input behind the refusal (positions_fit), answers independent of how a non-contiguous Buf is cut")
     level_note = ("trusted: Lean kernel + 3 standard axioms; hand-written models tied to the code by differential runs (all "
                   "0..2-byte Huffman payloads and byte strings, every padding length/pattern, integer boundaries and "
                   "continuation patterns, error kinds and bit windows compared); Spec/Huffman.lean code lengths typed by "
@@ -56,12 +60,19 @@ class C15(Prop):
             "from {80,ff} closed by {00,7f,nothing}, truncations, random; huff enc for all byte strings of length 0..2 + random "
             "long; huff dec for all payloads of 0..2 bytes (thorough: all 3-byte payloads as digest ranges), valid encodings "
             "followed by every padding of 0..15 bits in every bit pattern, bit flips/truncations/EOS insertions; pstr for "
-            "sizes 2..9 (4,6,8 most) x H flag x truncation/length mutations; non-trivial = implementation result is not "
-            "bad-op; distinct = distinct case lines")
-    trusted = ["bytes::{Buf,BufMut} for &[u8] cursors and Vec<u8>",
+            "sizes 2..9 (4,6,8 most) x H flag x truncation/length mutations; pstr decm / pint decm = the same decoders over "
+            "a NON-CONTIGUOUS Buf (chunk() is the first piece only): valid and invalid literals, raw and Huffman, with and "
+            "without bytes behind them - every 2-way split, every 3-way split of the short ones, sampled 3-way splits of the "
+            "others, every byte a chunk of its own, random literals with 1..4 random cuts; declared lengths around 2^29 - 2 "
+            "with and without H; huff decn = Huffman literals of n copies of a unit (corpus: the 2^29-byte witness of D-06u); "
+            "non-trivial = implementation result is not bad-op; distinct = distinct case lines")
+    trusted = ["bytes::{Buf,BufMut} for &[u8] cursors and Vec<u8>; the harness's multi-chunk Buf (e_c16::Chunks: remaining / "
+               "chunk / advance over a VecDeque<Bytes>, default copy_to_bytes / get_u8 of the bytes crate)",
                "Debug rendering of the private Huffman error type (kind and BitWindow numbers are read from it)"]
     assumptions = ["usize is 64 bits (u64 -> usize conversion of a string length never fails)",
-                   "Huffman payloads are shorter than 2^28 bytes (BitWindow positions are u32)",
+                   "no assumption on the length of a Huffman payload any more: the u32 BitWindow positions are covered by "
+                   "C15_huffman_positions_fit and the refusal of literals of 2^29 - 2 bytes or more (D-06u, repaired); the "
+                   "round trip is claimed for strings whose Huffman coding is shorter than that (reading R-15b)",
                    "overflow checks are on in the harness build: prefix size 0 panics in prefix_int::decode "
                    "(`0xFF >> 8` on u8); sizes 1..8 are the property's quantifier"]
 
@@ -291,11 +302,145 @@ class C15(Prop):
         for n in range(2, 10):
             L.append("pstr enc %d 255 6161" % n)
 
+    def _chunked(self, tier, rng, L, codes):
+        """`pint decm` / `pstr decm`: the real decoders over a NON-CONTIGUOUS `Buf` (`chunk()` = the first piece
+        only).  Literals valid and invalid, raw and Huffman, with and without bytes behind them: every 2-way split,
+        every 3-way split of the short ones and sampled 3-way splits of the others, every byte a chunk of its own."""
+        big = tier == "thorough"
+
+        def enc_bits(s):
+            return "".join(codes[c] for c in s)
+
+        def pint(n, flags, v):
+            lim = 2**n - 1
+            if v < lim:
+                return [(flags << n) | v]
+            out = [(flags << n) | lim]
+            v -= lim
+            while v >= 128:
+                out.append(v % 128 + 128)
+                v //= 128
+            out.append(v)
+            return out
+
+        def splits(op, n, wire, all3, k3):
+            m = len(wire)
+            for c in range(1, m):
+                L.append("%s decm %d %s,%s" % (op, n, hx(wire[:c]), hx(wire[c:])))
+            if m >= 3:
+                pairs = [(a, b) for a in range(1, m - 1) for b in range(a + 1, m)]
+                if not all3 and len(pairs) > k3:
+                    # 1-byte middle chunks and random ones
+                    near = [(a, a + 1) for a in range(1, m - 1)]
+                    pairs = rng.sample(near, min(len(near), k3 // 2)) + rng.sample(pairs, k3 - k3 // 2)
+                for a, b in pairs:
+                    L.append("%s decm %d %s,%s,%s" % (op, n, hx(wire[:a]), hx(wire[a:b]), hx(wire[b:])))
+                L.append("%s decm %d %s" % (op, n, ",".join("%02x" % x for x in wire)))
+            if m >= 1:
+                L.append("%s decm %d %s" % (op, n, hx(wire)))      # one chunk: the contiguous answer, same engine
+
+        # ---- string literals
+        texts = [[], [0x61], list(b"ab"), list(b"x-a"), list(b"name"), list(b"www.example.com"), [0, 255, 97],
+                 [rng.randrange(256) for _ in range(7)], list(b"0123456789"), [0xff] * 3]
+        sizes = [4, 6, 8] * 2 + [2, 3, 5, 7, 9]
+        wires = []          # (n, wire, short?)
+        for n in sizes:
+            f = rng.randrange(2**(8 - n)) if n < 8 else 0
+            for s in texts:
+                wires.append((n, pint(n - 1, f << 1, len(s)) + s))                                       # raw
+                wires.append((n, pint(n - 1, f << 1, len(s) + 1 + rng.randrange(3)) + s))                # raw, truncated
+                if n < 9:
+                    bits = enc_bits(s)
+                    good = pack(bits + "1" * (-len(bits) % 8))
+                    wires.append((n, pint(n - 1, (f << 1) | 1, len(good)) + good))
+                    wires.append((n, pint(n - 1, (f << 1) | 1, len(good) + 1) + good))                    # truncated
+                    bad = pack(bits + "0" * (-len(bits) % 8)) if len(bits) % 8 else good + [0xff, 0xff, 0xff, 0xff]
+                    wires.append((n, pint(n - 1, (f << 1) | 1, len(bad)) + bad))                          # bad padding / EOS
+                    if good:
+                        wires.append((n, pint(n - 1, (f << 1) | 1, len(good) - 1) + good))               # cut inside a code
+        for n in (4, 6, 8):
+            # lengths that need continuation bytes in the length integer, a long payload crossing many cuts
+            for ln in (2**(n - 1) - 1, 2**(n - 1), 130, 300 if big else 140):
+                s = [rng.choice(b"abcdefghij0123./-:") if rng.random() < 0.7 else rng.randrange(256) for _ in range(ln)]
+                bits = enc_bits(s)
+                good = pack(bits + "1" * (-len(bits) % 8))
+                wires.append((n, pint(n - 1, 0, len(s)) + s))
+                wires.append((n, pint(n - 1, 1, len(good)) + good))
+            # over-long / overflowing / huge length integers (the payload is then missing)
+            wires.append((n, [0xff] + [0x80] * 9 + [0x00, 0x61]))
+            wires.append((n, [0xff] + [0xff] * 9 + [0x7f]))
+            wires.append((n, pint(n - 1, 1, 2**29 - 2)))
+            wires.append((n, pint(n - 1, 1, 2**29 - 3) + [0x61]))
+            wires.append((n, pint(n - 1, 0, 2**29 - 2) + [0x61]))
+        seen = set()
+        for n, w in wires:
+            for rest in ([], [rng.randrange(256) for _ in range(rng.randrange(1, 4))]):
+                wire = w + rest
+                key = (n, tuple(wire))
+                if key in seen or not wire:
+                    continue
+                seen.add(key)
+                short = len(wire) <= (12 if big else 9)
+                if len(wire) > 40 and not big and rng.random() < 0.5:
+                    # long literals: a sample of the cuts only (quick tier)
+                    m = len(wire)
+                    for c in rng.sample(range(1, m), 25):
+                        L.append("pstr decm %d %s,%s" % (n, hx(wire[:c]), hx(wire[c:])))
+                    L.append("pstr decm %d %s" % (n, ",".join("%02x" % x for x in wire)))
+                    continue
+                splits("pstr", n, wire, short, 40 if big else 12)
+        # random literals, random cuts
+        for _ in range(6000 if big else 800):
+            n = rng.choice(sizes)
+            ln = rng.choice([1, 2, 3, 5, 8, 13, 21, 40])
+            s = [rng.randrange(256) if rng.random() < 0.3 else rng.choice(b"abcdefghij0123./-:") for _ in range(ln)]
+            h = rng.randrange(2) if n < 9 else 0
+            if h:
+                bits = enc_bits(s)
+                pad = rng.choice(["1", "1", "1", "0"])
+                payload = pack(bits + pad * (-len(bits) % 8))
+            else:
+                payload = s
+            dl = rng.choice([0, 0, 0, 0, 0, 1, -1])
+            wire = pint(n - 1, ((rng.randrange(2**(8 - n)) if n < 8 else 0) << 1) | h, max(0, len(payload) + dl)) + payload
+            wire += [rng.randrange(256) for _ in range(rng.randrange(0, 3))]
+            k = rng.randrange(1, min(5, len(wire)))
+            cuts = sorted(rng.sample(range(1, len(wire)), k))
+            pieces = [wire[a:b] for a, b in zip([0] + cuts, cuts + [len(wire)])]
+            L.append("pstr decm %d %s" % (n, ",".join(hx(p) for p in pieces)))
+        # ---- integers
+        for n in range(1, 9):
+            lim = 2**n - 1
+            fmax = 2**(8 - n) - 1
+            vals = [0, lim - 1, lim, lim + 1, lim + 127, lim + 128, lim + 2**14, lim + 2**35 + 5, 2**62 - 1, 2**62,
+                    lim + 2**63 - 1, lim + 2**63, U64]
+            for v in vals:
+                if v < 0 or v > U64:
+                    continue
+                w = pint(n, rng.choice([0, fmax]), v)
+                for wire in (w, w + [0x99], w[:-1]):
+                    if wire:
+                        splits("pint", n, wire, len(wire) <= 7, 12)
+            for wire in ([lim] + [0xff] * 10 + [0x01], [0xff] + [0x80] * 9 + [0x00, 0x07], [0xff] + [0x80] * 8):
+                splits("pint", n, wire, False, 12)
+        # not chunk lists
+        for bad in ("61,,62", ",61", "61,", "6", "-"):
+            L.append("pstr decm 8 " + bad)
+            L.append("pint decm 5 " + bad)
+        L.append("pstr decm 0 8161,62")
+        L.append("pint decm 9 ff,01")
+        L.append("pint decm 0 ff,01")
+
     def cases(self, tier, rng):
         L = []
         self._pint(tier, rng, L)
         codes = self._huff(tier, rng, L)
         self._pstr(tier, rng, L, codes)
+        self._chunked(tier, rng, L, codes)
+        # the Huffman decoder's u32 bit positions (D-06u, repaired): short `decn` literals run through the model,
+        # the witness of the defect is in corpus/C15 (512 MiB, answered `err BufSize` at once)
+        for unit, cnt in (("00", 0), ("00", 1), ("00", 5), ("ff", 3), ("1c", 64), ("a8eb10649cbf", 100), ("00", 65536)):
+            L.append("huff decn %s %d" % (unit, cnt))
         return L
 
     # ------------------------------------------------------------------ statistics
@@ -306,6 +451,19 @@ class C15(Prop):
         eng, op = w[0], w[1]
         if op == "range":
             return "huff/range"
+        if op == "decn":
+            return "huff/decn/" + "-".join(r[:2] if r[0] == "err" else [r[0]])
+        if op == "decm":
+            kind = r[0]
+            if kind == "err":
+                kind = "err-" + "-".join(r[1:3] if eng == "pstr" and len(r) > 2 and r[1] in ("Huffman", "Integer") else r[1:2])
+            pieces = w[3].split(",")
+            hflag = ""
+            if eng == "pstr" and re.fullmatch(r"[0-9a-f,]+", w[3]) and w[2].isdigit() and 2 <= int(w[2]) <= 8:
+                first = int(w[3].replace(",", "")[:2], 16)
+                hflag = "/H%d" % ((first >> (int(w[2]) - 1)) & 1)
+            return "%s/decm/n%s%s/%s/%s" % (eng, w[2], hflag, "1" if len(pieces) == 1 else "2" if len(pieces) == 2
+                                           else "3" if len(pieces) == 3 else "4+", kind)
         kind = r[0]
         if kind == "err":
             kind = "err-" + "-".join(r[1:3] if eng == "pstr" and len(r) > 2 and r[1] in ("Huffman", "Integer") else r[1:2])
@@ -331,6 +489,19 @@ class C15(Prop):
             if hi - lo > 1:
                 mid = (lo + hi) // 2
                 out += ["huff range %d %d" % (lo, mid), "huff range %d %d" % (mid, hi)]
+            return out
+        if w[1] == "decn":
+            c = int(w[3])
+            return [" ".join(w[:3] + [str(x)]) for x in (c // 2, c - 1) if 0 <= x < c]
+        if w[1] == "decm":
+            # fewer bytes at either end, fewer cuts (a candidate that no longer fails is simply not taken)
+            ps = w[3].split(",")
+            if len(ps[-1]) > 2:
+                out.append(" ".join(w[:3] + [",".join(ps[:-1] + [ps[-1][:-2]])]))
+            elif len(ps) > 1:
+                out.append(" ".join(w[:3] + [",".join(ps[:-1])]))
+            for i in range(len(ps) - 1):
+                out.append(" ".join(w[:3] + [",".join(ps[:i] + [ps[i] + ps[i + 1]] + ps[i + 2:])]))
             return out
         if w[0] == "pint" and w[1] == "enc":
             v = int(w[4])
